@@ -108,6 +108,16 @@ def run_family(c, rec):
         res = judge(fam + "[FD]", d2.gradient, d2.logd, x, rec, fd=True)
         logd_ok = not refuses(lambda: d2.logd(x.copy()))[0]
         require(res != "refused" or not logd_ok, f"{fam}: gradient still refused after enable_FD()")
+        if len(x) == 1 and res == "checked":
+            # a one-dimensional density evaluated at a plain scalar instead of a one-element array
+            xs = float(x[0])
+            refused, gs = refuses(lambda: d2.gradient(xs))
+            if not refused and gs is not None:
+                ga = np.asarray(d2.gradient(x.copy()), dtype=float).reshape(-1)
+                gs = np.asarray(gs, dtype=float).reshape(-1)
+                require(gs.size == 1 and abs(gs[0] - ga[0]) <= 1e-4 * max(1.0, abs(ga[0])),
+                        f"{fam}: with the finite-difference option the gradient at a scalar point differs from the gradient at the same point given as an array",
+                        scalar_point=gs, array_point=ga, x=xs)
         d2.disable_FD()
 
 
